@@ -25,6 +25,9 @@ pub fn render(v: &Value) -> String {
     "bad_selector" => { rule.insert("pattern".into(), json!({"context": "foo($A)", "selector": "no_such_kind"})); }
     "skipped_token_then_ellipsis" => { rule.insert("pattern".into(), json!({"context": "[, $$$]", "strictness": "relaxed"})); }
     "lone_sigil" => { rule.insert("pattern".into(), json!("$")); }
+    // no pattern: the rule's kinds are the parser's ERROR kind, whose number lies above every kind of the grammar
+    "none_kind_error" => { rule.insert("kind".into(), json!("ERROR")); }
+    "none_any_error" => { rule.insert("any".into(), json!([{"kind": "ERROR"}, {"kind": "number"}])); }
     _ => { rule.insert("pattern".into(), json!("foo(\"é🦀\", $A)")); }
   }
   match s(v, "kind").as_str() {
@@ -52,6 +55,11 @@ pub fn render(v: &Value) -> String {
       utils.insert("SELF".into(), json!({"nthChild": {"position": 1, "ofRule": {"matches": "SELF"}}}));
     }
     "zero" => { rule.insert("nthChild".into(), json!(0)); }
+    // formulas at the limits of the number type (accepted by the parser of the notation)
+    "anb_min_offset" => { rule.insert("nthChild".into(), json!("-n - 2147483647")); }
+    "anb_max_both" => { rule.insert("nthChild".into(), json!("2147483647n+2147483647")); }
+    "anb_neg_step_max" => { rule.insert("nthChild".into(), json!({"position": "-2147483647n+1", "reverse": true})); }
+    "numeric_beyond_u32" => { rule.insert("nthChild".into(), json!(4294967297u64)); }
     "object_missing_position" => { rule.insert("nthChild".into(), json!({"reverse": true})); }
     _ => {}
   }
@@ -154,6 +162,32 @@ pub fn render(v: &Value) -> String {
     "no_fix" => { doc.insert("rewriters".into(), json!([{"id": "rw", "rule": {"kind": "number"}}])); }
     "recursive" => { doc.insert("rewriters".into(), json!([{"id": "rw", "rule": {"pattern": "[$$$E]"}, "transform": {"R": {"rewrite": {"source": "$$$E", "rewriters": ["rw"]}}}, "fix": "<$R>"}])); }
     "clash_with_util" => { doc.insert("rewriters".into(), json!([{"id": "u", "rule": {"kind": "number"}, "fix": "N"}])); utils.insert("u".into(), json!({"kind": "number"})); }
+    // rewriters that are used: their fixes widen the edit (expandStart / expandEnd) beyond the text being rewritten,
+    // resp. overlap each other
+    c @ ("expand_start_outside" | "expand_end_outside" | "expand_both_joined" | "used_overlapping") => {
+      let fix = match c {
+        "expand_start_outside" => json!({"template": "N", "expandStart": {"regex": "."}}),
+        "expand_end_outside" => json!({"template": "N", "expandEnd": {"regex": "."}}),
+        "expand_both_joined" => json!({"template": "N", "expandStart": {"regex": "[(, ]"}, "expandEnd": {"regex": "[), ]"}}),
+        _ => json!("N"),
+      };
+      let mut rws = vec![json!({"id": "rw", "rule": {"kind": "number"}, "fix": fix})];
+      if c == "used_overlapping" {
+        rws.push(json!({"id": "rw2", "rule": {"kind": "array"}, "fix": {"template": "ARR", "expandEnd": {"regex": ","}}}));
+      }
+      let names: Vec<Value> = rws.iter().map(|r| r["id"].clone()).collect();
+      doc.insert("rewriters".into(), json!(rws));
+      let mut rewrite = json!({"rewrite": {"source": "$A", "rewriters": names}});
+      if c == "expand_both_joined" {
+        rewrite["rewrite"]["joinBy"] = json!("+");
+      }
+      let mut t = doc.get("transform").and_then(|t| t.as_object().cloned()).unwrap_or_default();
+      t.insert("RW".into(), rewrite);
+      doc.insert("transform".into(), Value::Object(t));
+      if !doc.contains_key("fix") {
+        doc.insert("fix".into(), json!("bar($RW)"));
+      }
+    }
     _ => {}
   }
   if !utils.is_empty() {
@@ -217,7 +251,7 @@ const TEXTS: [(&str, &str); 4] = [
   // captured texts that stress per-character work: upper/lower runs with multi-byte letters, title-case digraphs,
   // letters whose case mapping changes length, combining marks, separators at the edges
   ("d.js", "foo(ÉÀb); foo(XMLÉb); foo(ǅemal); foo(ßtraSSe); foo(İi̇I); foo(aB_c__D); foo(_); foo($x); foo(ÀÉ); foo(é); foo(x̃Ỹz); foo(ＡＢc); foo(\"ÉÀb-Çd_ÊF\"); foo(ab); foo(abc); foo(abcd); foo(\"\");\n"),
-  ("a.js", "foo(b1); foo(bar, 1); foo(\"é🦀\", [1, 2, 3]); [, 2, x]; foo([1, [2, 3]]);\nclass A { foo(q) {} }\n"),
+  ("a.js", "foo(b1); foo(bar, 1); foo(\"é🦀\", [1, 2, 3]); [, 2, x]; foo([1, [2, 3]]);\nclass A { foo(q) {} }\nfoo(7); foo([8]);foo(9)\n"),
   ("b.js", "foo(\nfoo(b"),
   ("c.js", ";"),
 ];
